@@ -590,6 +590,40 @@ func init() {
 			default:
 				w = Generate(c.Tape, crashTierProfile(profC01, c.Tier))
 			}
+			for i := range w.Nodes {
+				n := &w.Nodes[i]
+				if n.Kind != KProc || n.Custom == 0 || len(n.Ins) == 0 || n.Ins[0].Join {
+					continue
+				}
+				switch c.Tape.Choose(simrt.StGen, 4, 0) {
+				case 1:
+					// the out-ports of a Go-function process exist through SetOut only
+					ok := true
+					for _, o := range n.Outs {
+						ok = ok && !strings.Contains(o.Pattern, "{i:a}") && !strings.Contains(o.Pattern, "/")
+					}
+					if ok || true {
+						n.OutNotInCmd = true
+						c.Probe("gofunc-ports-by-setout-only")
+					}
+				case 2:
+					// the function shells out through the library's ExecCmd helper
+					if len(n.Params) == 0 || !n.HiddenParams {
+						n.Custom = 3
+						c.Probe("gofunc-via-execcmd")
+					}
+				}
+			}
+			if c.Tape.Choose(simrt.StGen, 5, 0) == 1 {
+				// a declared output whose name ends in .log (what a tool's log file is called)
+				for i := range w.Nodes {
+					if n := &w.Nodes[i]; n.Kind == KProc && len(n.Outs) > 0 && !n.Outs[0].Stream && n.Outs[0].Pattern != "" {
+						n.Outs[0].Pattern += ".log"
+						c.Probe("output-named-dot-log")
+						break
+					}
+				}
+			}
 			if c.Tape.Choose(simrt.StGen, 6, 0) == 1 {
 				// a command that returns while a child of it (which inherited its
 				// stdout/stderr) still writes the rest of an output: `... | tee >(f > OUT)`
